@@ -306,6 +306,14 @@ def splitCmd : Cmd → List Cmd
   | .del ks => if ks.length > 1 then ks.map (fun k => .del [k]) else [.del ks]
   | c => [c]
 
+/-- `ReplicatedShardedState::execute` AFTER the repair prepared on fixes-glue-s3 ("the replicated
+    front end executes MSET / MGET / multi-key EXISTS key by key"): an MSET is one `SET` per pair —
+    each pair goes to its own shard and ships its own delta.  (MGET / EXISTS are reads: one
+    executor per node in this model, nothing to split.)  The current tree is `splitCmd`. -/
+def splitCmdFixed : Cmd → List Cmd
+  | .mset kvs => kvs.map (fun p => .set p.1 p.2 .always .none false)
+  | c => splitCmd c
+
 namespace GCluster
 
 def init (n : Nat) (causal : Bool) : GCluster :=
@@ -329,14 +337,31 @@ def step (g : GCluster) : GEv → GCluster
   | .deliver j idx =>
     match g.nodes[j]?, g.sent[idx]? with
     | some nd, some m =>
-      if m.origin = j then g
-      else
-        { g with
-          nodes := g.nodes.set j (nd.deliver m.key m.val)
-          log := g.log ++ [⟨j, m.key, m.val⟩] }
+      -- no origin check (`ApplyRemoteDelta` is applied whoever issued the delta)
+      { g with
+        nodes := g.nodes.set j (nd.deliver m.key m.val)
+        log := g.log ++ [⟨j, m.key, m.val⟩] }
     | _, _ => g
 
 def run (g : GCluster) (evs : List GEv) : GCluster := evs.foldl step g
+
+/-- the actor of node `i` crashes and is spawned again (`ReplicatedShardActor::spawn` with the same
+    replica id): empty executor, empty replication state, Lamport clock 0; what it gets back
+    arrives as `deliver` events (its own old deltas included) -/
+def restart (g : GCluster) (i : Nat) : GCluster :=
+  match g.nodes[i]? with
+  | none => g
+  | some nd =>
+    { g with
+      nodes := g.nodes.set i (Node.init nd.rs.rid nd.rs.causal)
+      log := g.log.filter (fun a => a.node ≠ i) }
+
+/-- the step of the repaired front end (`splitCmdFixed`) -/
+def stepFixed (g : GCluster) : GEv → GCluster
+  | .client i c => (splitCmdFixed c).foldl (fun g c' => g.clientOne i c') g
+  | e => g.step e
+
+def runFixed (g : GCluster) (evs : List GEv) : GCluster := evs.foldl stepFixed g
 
 /-- the replication-state layer of the cluster (the object of layer 1) -/
 def proj (g : GCluster) : Cluster := { nodes := g.nodes.map (·.rs), sent := g.sent, log := g.log }
@@ -352,7 +377,7 @@ def gunsupported (g : GCluster) : GEv → Option Reason
     | some nd => unsupported nd (.client c)
   | .deliver j idx =>
     match g.nodes[j]?, g.sent[idx]? with
-    | some nd, some m => if m.origin = j then none else unsupported nd (.deliver m.key m.val)
+    | some nd, some m => unsupported nd (.deliver m.key m.val)
     | _, _ => none
 
 def GSupported (g : GCluster) : List GEv → Prop
